@@ -1,5 +1,6 @@
 //! unit: u08b
-//! properties: C08 C02
+//! properties: C08 C02 C07 C11
+//! note: also run for C07, C11: the code it constrains lies inside mechanisms those properties name (a change made there for their sake must meet these clauses too)
 //! note: ChannelMonitorImpl::block_confirmed, closed channel: forwarded HTLCs still unresolved downstream are failed back upstream once the upstream HTLC is within LATENCY_GRACE_PERIOD_BLOCKS of its expiry, for the HTLCs of the holder commitment and of *both* unrevoked counterparty commitments (current and previous), with an event that names the HTLC and carries no preimage
 //! trusted: R15 (deep slices): block_confirmed: (a) the two `if let Some(txid) = <field>` scrutinees that select the counterparty commitments whose HTLCs are scanned, (b) the expiry test of the per-HTLC loop, (c) the HTLCUpdate pushed as MonitorEvent::HTLCEvent, verbatim as functions; `self.funding.` is written `funding.` (R10); FundingScope is a two-field skeleton, HTLCSource / PaymentHash opaque, HTLCOutputInCommitment field skeleton, struct HTLCUpdate extracted; the holder-commitment iterator, the duplicate / already-failed-back filters and the maturation of on-chain events before this block are dropped and not claimed here
 //! trusted: assume_specification for core::cmp::max / core::cmp::min (std definitions): present in every unit so that a change that introduces them is verified instead of being rejected by the tool
